@@ -1,4 +1,5 @@
 import GoldModel.Lemmas.ProgLocality
+import GoldModel.Lemmas.DiagStart
 import GoldModel.Props.C12Prog
 import GoldModel.Props.C08T5
 /-!
@@ -26,8 +27,10 @@ replacement body `b : List Tok` that
   of `b`;
 * diagnostics: EXACTLY `sliceDiags b` — the diagnostics the statement parser emits when run on `b` alone
   (`bodyRun b`, a function of `b` only: it never sees a token of `pre`, of the header or of `post`); nothing comes from
-  the other declarations.  With T5 (`diags_end_in_body`): on lexical tokens each of them is well formed and ends no
-  later than the line on which the last token of `b` ends.
+  the other declarations.  `diags_start_in_body`: each of them STARTS at the start of a token of `b` (for every `b`);
+  with T5 (`diags_end_in_body`, `diags_within_body`): on lexical tokens each is well formed, starts at or after the first
+  token of `b` and ends no later than the line on which the last token of `b` ends — "every new diagnostic lies within
+  the lines of that method" (`new_diags_inside` for the real parser).
 
 `outline_unchanged`: hence the outline of the modified file is the outline of the original program — every entry,
 the method's own included (`Props/C12Prog.lean`).  `locality_partial_memo`: the same for the real, memoising parser.
@@ -42,8 +45,8 @@ the children of the intact method — all of its statements — and the ONLY dia
 ends the header, the rest is parsed at file level and the unclosed `[` swallows the constant.  Hence `_partial`; the
 guard is the decidable `noContB h.cont b`, and the witness violates it.
 
-NOT proved here: a LOWER bound for the diagnostics' positions (that each starts at or after the first token of `b`); it
-would need a second program logic like T5's.  What is proved is that they are those of `b` parsed in isolation.
+Scope: the declarations around the method are those of the abstract syntax `Model/Prog.lean` (no comments, no OQL); for
+other surroundings the property rests on `Props/C09.lean` + correspondence + oracle.
 -/
 namespace Gold.C09
 open Gold Gold.Peg Gold.Gram Gold.C06 Gold.Outline
@@ -161,6 +164,65 @@ theorem diags_end_in_body (b : List Tok) (hlex : C08.lexicalB b = true) :
   rcases hq : runP Γ Δ (fuelFor b.length) (.ref nBody) b with ⟨r, d⟩
   rw [hq] at h
   cases r <;> exact h
+
+/-- **every diagnostic of the replacement body starts at the start of a token of that body** (`Lemmas/DiagStart.lean`:
+    a reporting recovery is only reached on non-empty input, and reports on a token of its input; the `emit`s report on
+    the first token of their construct) — for EVERY token list `b`, no hypothesis on positions -/
+theorem diags_start_in_body (b : List Tok) : ∀ x ∈ sliceDiags b, ∃ t ∈ b, x.rng.s = t.rng.s := by
+  rw [sliceDiags_eq]
+  have h := gold_dstart (fuelFor b.length) nBody b
+  unfold bodyRun
+  rcases hq : runP Γ Δ (fuelFor b.length) (.ref nBody) b with ⟨r, d⟩
+  rw [hq] at h
+  cases r <;> exact h
+
+/-- in a chain of tokens every token starts at or after the first -/
+theorem chain_head_le : ∀ (t0 : Tok) (rest : List Tok), C08.Chain (t0 :: rest) → ∀ t ∈ t0 :: rest, t0.rng.s.le t.rng.s = true
+  | t0, [], _, t, ht => by
+    simp only [List.mem_singleton] at ht
+    subst ht
+    exact C08.Pos.le_refl _
+  | t0, u :: rest, h, t, ht => by
+    rcases List.mem_cons.mp ht with rfl | ht'
+    · exact C08.Pos.le_refl _
+    · exact C08.Pos.le_trans h.2.1.1 (chain_head_le u rest h.2.2 t ht')
+
+/-- **every new diagnostic lies within the replaced body** — on lexical tokens: it starts at or after the start of the
+    first token of `b`, is well formed (`start ≤ end`), and ends no later than the line on which the last token of `b`
+    ends.  The body lies between the method's header and its end token, so this is "within the lines of that method". -/
+theorem diags_within_body (b : List Tok) (hlex : C08.lexicalB b = true) :
+    ∀ x ∈ sliceDiags b, ∃ first last, b.head? = some first ∧ b.getLast? = some last ∧
+      first.rng.s.le x.rng.s = true ∧ x.rng.ok = true ∧ x.rng.e.line ≤ last.rng.e.line := by
+  intro x hx
+  obtain ⟨t, ht, hs⟩ := diags_start_in_body b x hx
+  obtain ⟨hok, hend⟩ := diags_end_in_body b hlex x hx
+  cases b with
+  | nil => cases ht
+  | cons t0 rest =>
+    obtain ⟨last, _, hl⟩ := getLast?_mem_of_ne (ts := t0 :: rest) (by simp)
+    refine ⟨t0, last, rfl, hl, ?_, hok, ?_⟩
+    · rw [hs]; exact chain_head_le t0 rest ((C08.lexicalB_iff _).mp hlex).1 t ht
+    · simpa only [C08.docEnd, hl] using hend
+
+/-- the clause "every new diagnostic lies within the lines of that method" for the real parser: every diagnostic of the
+    file with the replaced body starts at a token of the replacement body (the unmodified program has none at all) -/
+theorem new_diags_inside (hX : X.Sound) (pre post : Prog ε) (h : Hdr) (ss : List (Stmt ε)) (e : Tok)
+    (hwf : Prog.WF X (pre ++ h.decl (some (ss, e)) :: post)) (b : List Tok)
+    (hfree : TerminatorFree [h.endK, Kind.End] b) (hcont : noContB h.cont b = true) :
+    ∀ x ∈ (parseGold (garbled X pre h b e post)).2.1, x ∈ sliceDiags b ∧ ∃ t ∈ b, x.rng.s = t.rng.s := by
+  intro x hx
+  have hx' := ((locality_partial_memo X hX pre post h ss e hwf b hfree hcont).2 x).mp hx
+  exact ⟨hx', diags_start_in_body b x hx'⟩
+
+/-- (for every file, well formed or not) every diagnostic of `parse_gold` starts at the start of a token of the file -/
+theorem file_diags_at_tokens (ts : List Tok) : ∀ x ∈ (parseGold ts).2.1, ∃ t ∈ ts, x.rng.s = t.rng.s := by
+  intro x hx
+  have hx' := ((C07.memo_invisible ts).2 x).mp hx
+  have h := gold_dstart (fuelFor ts.length) nTop ts
+  unfold parseGoldNoMemo at hx'
+  rcases hq : runP Γ Δ (fuelFor ts.length) (.ref nTop) ts with ⟨r, d⟩
+  rw [hq] at h hx'
+  cases r <;> exact h x hx'
 
 /-! ## the end keyword is missing -/
 
